@@ -398,5 +398,47 @@ func extractC18() *lean {
 		}
 	}
 	l.def("localResolverErrorReturns", "List String", leanStrList(errReturns), errReturns)
+	// the time bound of the local lookup: Resolve passes nil unless the caller asked for a time; Latest then bounds by now+1h
+	var latestArgs, notAfterDecl, latestDefault []string
+	for _, d := range ds.Decls {
+		if fd, ok := d.(*ast.FuncDecl); ok && fd.Name.Name == "Resolve" {
+			ast.Inspect(fd, func(n ast.Node) bool {
+				switch x := n.(type) {
+				case *ast.CallExpr:
+					if sel, ok := x.Fun.(*ast.SelectorExpr); ok && sel.Sel.Name == "Latest" {
+						for _, a := range x.Args {
+							latestArgs = append(latestArgs, condString(a))
+						}
+					}
+				case *ast.ValueSpec:
+					for i, nm := range x.Names {
+						v := "<zero value>"
+						if i < len(x.Values) {
+							v = condString(x.Values[i])
+						}
+						notAfterDecl = append(notAfterDecl, nm.Name+" "+condString(x.Type)+" = "+v)
+					}
+				case *ast.AssignStmt:
+					if len(x.Lhs) == 1 && len(x.Rhs) == 1 && (condString(x.Lhs[0]) == "notAfter" || condString(x.Lhs[0]) == "resolveTime") {
+						notAfterDecl = append(notAfterDecl, condString(x.Lhs[0])+" "+x.Tok.String()+" "+condString(x.Rhs[0]))
+					}
+				}
+				return true
+			})
+		}
+	}
+	_, dd := parseFile("vdr/didsubject/did_document.go")
+	for _, d := range dd.Decls {
+		if fd, ok := d.(*ast.FuncDecl); ok && fd.Name.Name == "Latest" {
+			for _, st := range fd.Body.List {
+				if as, ok := st.(*ast.AssignStmt); ok && len(as.Lhs) == 1 && condString(as.Lhs[0]) == "notAfter" {
+					latestDefault = append(latestDefault, condString(as.Rhs[0]))
+				}
+			}
+		}
+	}
+	l.def("localLatestArgs", "List String", leanStrList(latestArgs), latestArgs)
+	l.def("localNotAfterAssignments", "List String", leanStrList(notAfterDecl), notAfterDecl)
+	l.def("latestDefaultBound", "List String", leanStrList(latestDefault), latestDefault)
 	return l
 }
